@@ -257,6 +257,49 @@ def floatVals : List Nat → Vals
   | [] => .nil
   | n :: r => .cons (.float n) (floatVals r)
 
+/-! ### Struct fields by name
+
+A script names a struct field by its Go name.  In this universe field `i` is called `F<i>`
+(`F0`, `F1`, …, `F10`, …): the names `reflect.StructOf` types and the declared struct types of the
+correspondence harness use. -/
+
+def Fields.length : Fields → Nat
+  | .nil => 0
+  | .cons _ r => r.length + 1
+
+/-- the name of field `i`: the bytes of "F" followed by the decimal digits of `i` -/
+def fieldKey (i : Nat) : List Nat := 70 :: (Nat.toDigits 10 i).map Char.toNat
+
+/-- `reflect.Value.FieldByName` on a struct with `n` fields: the index of the field called `k` -/
+def fieldIdx (n : Nat) (k : List Nat) : Option Nat := (List.range n).find? (fun i => fieldKey i == k)
+
+/-- the entry of a map object that names field `i` of a struct with `n` fields -/
+def entryFor (n i : Nat) : List (List Nat) → Objs → Option Obj
+  | k :: ks, .cons o r => if fieldIdx n k = some i then some o else entryFor n i ks r
+  | _, _ => none
+
+def isMapObj : Obj → Bool
+  | .map _ _ => true
+  | _ => false
+
+/-- the exported fields of a struct-kind type (time.Time has none) -/
+def fieldsOf (t : GoTy) : Fields :=
+  match under t with
+  | .struct fs => fs
+  | _ => .nil
+
+/-- a struct assembled field by field: field `i` takes the value listed for `i`, every other field
+    keeps its zero value -/
+def place : Nat → Fields → List (Nat × GoVal) → Vals
+  | _, .nil, _ => .nil
+  | i, .cons ft fs, ps => .cons ((ps.lookup i).getD (zero ft)) (place (i + 1) fs ps)
+
+/-- the value of a struct-kind type `t` assembled from the listed fields (`goType.New()` + `Set`) -/
+def fillStruct (t : GoTy) (ps : List (Nat × GoVal)) : GoVal :=
+  match under t with
+  | .struct fs => .struct (place 0 fs ps)
+  | _ => zero t
+
 def two63 : Int := 9223372036854775808
 def two64 : Int := 18446744073709551616
 
@@ -487,6 +530,9 @@ def toLeaf (F : FOps) (m : Mode) (b : GoTy) (o : Obj) : Outcome Dyn :=
   | .dyn => .ok (objIface o)
   | _ => .error
 
+/-- `newGoField`: a struct-typed field is handled through a pointer to it -/
+def fieldConvTy (ft : GoTy) : GoTy := if isStructKind ft then .ptr ft else ft
+
 /-- `reflect.Append` / `Value.Set` of a converted element into a slot of type `t` -/
 def putElem (t : GoTy) (r : Dyn) : Outcome GoVal :=
   match r with
@@ -518,7 +564,20 @@ def toBase (F : FOps) (m : Mode) (b : GoTy) (o : Obj) : Outcome Dyn :=
       | .error => .error
       | .panic => .panic
     | .dyn => .ok (objIface (.map ks os))
-    | _ => .error                     -- map → struct is not modelled (never generated)
+    -- `StructConverter.To`, `case *Map`: a NEW struct (`c.goType.New()`), the fields the map names
+    -- are set one by one, every other field keeps its zero value; the struct itself is returned for
+    -- a struct-typed slot, the pointer to it for a pointer-typed one
+    | .structV => match toFieldVals F (fieldsOf b) ks os with
+      | .ok ps => .ok (some (b, fillStruct b ps))
+      | .error => .error
+      | .panic => .panic
+    | .structP => match under b with
+      | .ptr s => match toFieldVals F (fieldsOf s) ks os with
+        | .ok ps => .ok (some (b, .ptr (fillStruct s ps)))
+        | .error => .error
+        | .panic => .panic
+      | _ => .error
+    | _ => .error
   | .nil => match sel m b with
     | .slice _ => .ok none
     | .map _ => .ok none
@@ -586,6 +645,32 @@ def toMap (F : FOps) (t : GoTy) : List (List Nat) → Objs → Outcome (List (Li
         | .panic => .panic
       else .panic
   | _, _ => .ok ([], .nil)
+/-- `StructConverter.To`'s loop over the entries of a map object: an entry whose key names no
+    (exported) field is skipped (`FieldByName(k).CanSet()`); otherwise the field's converter — the
+    one `newGoField` made: for `*S` when the field has struct type `S` — converts the value and
+    `f.Set(reflect.ValueOf(attrValue))` stores it, without a nil check and without looking at the
+    type (`putElem`).  The result lists (field index, value).  Go walks the map in its own order;
+    the model walks the keys as listed (sorted): they can differ only in WHICH failure ends the
+    conversion when several entries fail. -/
+def toFieldVals (F : FOps) (fs : Fields) : List (List Nat) → Objs → Outcome (List (Nat × GoVal))
+  | k :: ks, .cons o r =>
+    match fieldIdx fs.length k with
+    | none => toFieldVals F fs ks r
+    | some i => match fs.nth i with
+      | none => toFieldVals F fs ks r
+      | some ft =>
+        match liftPtr (peel (fieldConvTy ft)).1 o
+            (toBase F (baseMode .get (peel (fieldConvTy ft)).1) (peel (fieldConvTy ft)).2 o) with
+        | .error => .error
+        | .panic => .panic
+        | .ok d => match putElem ft d with
+          | .ok x => match toFieldVals F fs ks r with
+            | .ok ps => .ok ((i, x) :: ps)
+            | .error => .error
+            | .panic => .panic
+          | .error => .error
+          | .panic => .panic
+  | _, _ => .ok []
 end
 
 /-- `TypeConverter.To` for the converter of `ty` -/
@@ -610,9 +695,6 @@ def structFields (t : GoTy) : Option Fields :=
   | .struct fs => some fs
   | .time => some .nil
   | _ => none
-
-/-- `newGoField`: a struct-typed field is handled through a pointer to it -/
-def fieldConvTy (ft : GoTy) : GoTy := if isStructKind ft then .ptr ft else ft
 
 /-- the type of field `i` of the struct a proxy of type `pty` points to -/
 def proxyField (pty : GoTy) (i : Nat) : Option GoTy :=
@@ -761,14 +843,16 @@ def repr (F : FOps) (ty : GoTy) (v : GoVal) (o : Obj) : Bool :=
     | .f32 => f32Is F bits o
     | _ => false
   | .str s => decide (under ty = .str) && (decide (o = .str s) || decide (o = .bytes s))
-  | .time t => if ty = .time then decide (o = .time t)
-               else isStructKind ty && decide (o = .proxy (.ptr ty) (.ptr (.time t)))
+  | .time t => (if ty = .time then decide (o = .time t)
+                else isStructKind ty && decide (o = .proxy (.ptr ty) (.ptr (.time t))))
+               -- a map names none of time.Time's (unexported) fields: the zero time
+               || (isStructKind ty && isMapObj o && decide (t = 0))
   | .nilv => match under ty with
     | .ptr t => if isStructKind t then decide (o = .proxy ty .nilv) else decide (o = .nil)
     | .iface => decide (o = .nil)
     | _ => false
   | .ptr x => match under ty with
-    | .ptr t => if isStructKind t then decide (o = .proxy ty (.ptr x))
+    | .ptr t => if isStructKind t then decide (o = .proxy ty (.ptr x)) || (isMapObj o && repr F t x o)
                 else decide (o ≠ .nil) && repr F t x o
     | _ => false
   | .seq xs => match under ty with
@@ -789,12 +873,26 @@ def repr (F : FOps) (ty : GoTy) (v : GoVal) (o : Obj) : Bool :=
       | .nil => decide (ks = [])
       | _ => false
     | _ => false
-  | .struct xs => isStructKind ty && decide (o = .proxy (.ptr ty) (.ptr (.struct xs)))
+  | .struct xs => isStructKind ty && (decide (o = .proxy (.ptr ty) (.ptr (.struct xs))) ||
+      -- a map object given where Go wants the struct: see `reprFields`
+      (match o, under ty with
+        | .map ks os, .struct fs => reprFields F fs.length 0 fs xs ks os
+        | _, _ => false))
   | .iface d x => isIfaceKind ty && decide (o ≠ .nil) && repr F d x o
 def reprs (F : FOps) (t : GoTy) : Vals → Objs → Bool
   | .nil, .nil => true
   | .cons x r, .cons o os => repr F t x o && reprs F t r os
   | _, _ => false
+/-- a map object represents a struct of `n` fields (here: fields `i`, `i+1`, …): every field the
+    map names holds a value representing the map's entry of that name, and EVERY OTHER FIELD IS
+    ZERO — the script passed nothing for it.  (Keys that name no field are not looked at.) -/
+def reprFields (F : FOps) (n : Nat) : Nat → Fields → Vals → List (List Nat) → Objs → Bool
+  | i, .cons ft fs, .cons x xs, ks, os =>
+    (match entryFor n i ks os with
+      | some o => repr F ft x o
+      | none => decide (x = zero ft)) && reprFields F n (i + 1) fs xs ks os
+  | _, .nil, .nil, _, _ => true
+  | _, _, _, _, _ => false
 end
 
 /-- the type mentions `interface{}` outside struct fields -/
@@ -1028,8 +1126,12 @@ def writeGuards (F : FOps) (m : Mode) (ty : GoTy) (o : Obj) : List Finding :=
     | .slice t => elemWriteGuards F t os
     | .array n t => (if os.length < n then [.arrayLen] else []) ++ elemWriteGuards F t os
     | _ => []
-  | .map _ os => match sel (baseMode m (peel ty).1) (peel ty).2 with
+  | .map ks os => match sel (baseMode m (peel ty).1) (peel ty).2 with
     | .map t => elemWriteGuards F t os
+    | .structV => fieldWriteGuards F (fieldsOf (peel ty).2) ks os
+    | .structP => match under (peel ty).2 with
+      | .ptr s => fieldWriteGuards F (fieldsOf s) ks os
+      | _ => []
     | _ => []
   | .proxy pty pv => match sel (baseMode m (peel ty).1) (peel ty).2 with
     | .structV => if pty = .ptr (peel ty).2 ∧ pv ≠ .nilv then [] else [.proxyType]
@@ -1043,6 +1145,19 @@ def elemWriteGuards (F : FOps) (t : GoTy) : Objs → List Finding
   | .nil => []
   | .cons o r => (if decide (o = .nil) && nilTo t then [.nilElem] else [])
       ++ writeGuards F .create t o ++ elemWriteGuards F t r
+/-- a map object given for a struct: per entry that names a field, the defects of writing that
+    field (`setGuards` below: a struct-typed field cannot be set, plus the write guards of the
+    value) and a `nil` value (stored through `reflect.ValueOf(nil)`, like a nil container element) -/
+def fieldWriteGuards (F : FOps) (fs : Fields) : List (List Nat) → Objs → List Finding
+  | k :: ks, .cons o r =>
+    (match fieldIdx fs.length k with
+      | some i => match fs.nth i with
+        | some ft => (if decide (o = .nil) then [.nilElem] else [])
+            ++ (if isStructKind ft then [.structField] else [])
+            ++ tyGuards (fieldConvTy ft) ++ writeGuards F .get (fieldConvTy ft) o
+        | none => []
+      | none => []) ++ fieldWriteGuards F fs ks r
+  | _, _ => []
 end
 
 def writeAllGuards (F : FOps) (m : Mode) (ty : GoTy) (o : Obj) : List Finding :=
@@ -1061,10 +1176,6 @@ conversion phase (`To`, or `reflect.Zero` for a nil argument) runs position by p
 at the first error or panic; then too few arguments are rejected ("args error"), and so are too
 many (repaired: arguments beyond the last parameter used to be dropped, `preFixCallArgs`); then
 `Func.Call` panics on an invalid or wrongly typed input. -/
-
-def Fields.length : Fields → Nat
-  | .nil => 0
-  | .cons _ r => r.length + 1
 
 /-- conversion phase for one argument: what is appended to `inputs`; `none` is an input on
     which `Func.Call` will panic (`reflect.ValueOf(nil)`, or a value of a non-assignable type) -/
@@ -1182,5 +1293,63 @@ def specReuse (F : FOps) (hist : List Binding) (n : Nat) (res : Outcome Obj) : B
 def heldGuards : List Binding → List Finding
   | [] => []
   | (_, ty, v) :: r => crossGuards .create ty v ++ heldGuards r
+
+/-! ### Go → script alone (a global, a field read, a method result)
+
+The read direction has ONE recorded defect: a non-nil pointer to a nil pointer / nil interface is
+shown as `nil` (`nilCollapse`).  Declared container types (`type Labels []string`), pointers to
+interfaces, nil elements — all of which the way BACK mishandles — read faithfully. -/
+
+def readClean (m : Mode) (ty : GoTy) (v : GoVal) : Bool := !(valGuards m ty v).contains .nilCollapse
+
+def readGuards (m : Mode) (ty : GoTy) (v : GoVal) : List Finding :=
+  if readClean m ty v then [] else [.nilCollapse]
+
+/-! ### One converter, many conversions
+
+Converters are process-wide: `typeConverters` / `GoType.converter` keep ONE converter per Go type,
+and every conversion of that type — by any VM, any `Eval` call, any element of one list — goes
+through it.  The code keeps no state in a converter (`converter_state_tie`): `StructConverter.To`
+builds the struct it returns from `goType.New()` every time.  So a series of conversions is the
+series of the single conversions, each independent of what was converted before. -/
+
+/-- a series of script objects written, one after the other, into slots of type `ty` -/
+def toSlotSeq (F : FOps) (m : Mode) (ty : GoTy) (os : List Obj) : List (Outcome GoVal) :=
+  os.map (toSlot F m ty)
+
+/-- a series of calls of one Go method `func (h *Host) E(x T) T` -/
+def callSeq (F : FOps) (pt : GoTy) (os : List Obj) : List (Outcome (GoVal × Obj)) :=
+  os.map (callEcho F pt)
+
+/-- Spec of a series of writes: every single one is faithful or rejected — whatever came before -/
+def specWriteSeq (F : FOps) (ty : GoTy) : List Obj → List (Outcome GoVal) → Bool
+  | [], [] => true
+  | o :: os, r :: rs => specWrite F ty o r && specWriteSeq F ty os rs
+  | _, _ => false
+
+/-! #### CONTRAST (not the code): a struct converter that reuses a scratch struct
+
+What `StructConverter.To` would do if it took the struct it fills from a pool and put it back
+without resetting it: the fields the current map names are overwritten, every other field keeps
+what an EARLIER conversion left there.  Refuted in Props (`pooled_violates_spec`); never compared
+with the code. -/
+
+/-- fields listed in `ps` are overwritten, the others keep what `xs` holds -/
+def overlay : Nat → Vals → List (Nat × GoVal) → Vals
+  | _, .nil, _ => .nil
+  | i, .cons x xs, ps => .cons ((ps.lookup i).getD x) (overlay (i + 1) xs ps)
+
+/-- a series of map → struct conversions through ONE scratch struct (`scratch`: what it holds) -/
+def pooledSeq (F : FOps) (fs : Fields) : Vals → List (List (List Nat) × Objs) → List (Outcome Vals)
+  | _, [] => []
+  | scratch, (ks, os) :: rest => match toFieldVals F fs ks os with
+    | .ok ps => .ok (overlay 0 scratch ps) :: pooledSeq F fs (overlay 0 scratch ps) rest
+    | .error => .error :: pooledSeq F fs scratch rest
+    | .panic => .panic :: pooledSeq F fs scratch rest
+
+/-- the same series through the converter as it is: a new struct every time -/
+def freshSeq (F : FOps) (fs : Fields) : List (List (List Nat) × Objs) → List (Outcome Vals)
+  | [] => []
+  | (ks, os) :: rest => (toFieldVals F fs ks os).map (place 0 fs) :: freshSeq F fs rest
 
 end Risor.C08
